@@ -101,6 +101,7 @@ class MMD(BaseDistanceBased):
 
     def _reset(self) -> None:
         self.mmd.reset()
+        self.X_queue.clear()
 
     def _update(self, value: Union[int, float]) -> Optional[DistanceResult]:
         self.X_queue.enqueue(value=value)
